@@ -345,6 +345,36 @@ def standin_noise_models(tier, seed):
             fails.append(dict(args=args, failed="density-differs", clause="density matrix of the noisy circuit differs from the channel semantics"))
         if len({f["failed"] for f in fails}) >= 3:
             break
+    # sampling (run): records of run(circuit) under a noise model == records of run(the circuit the model produces), incl. circuits whose
+    # remainder is measurements only with a qubit measured AGAIN later (the noise between the two measurements counts)
+    from contracts.C02_born import _canon_records
+    q0, q1, q2 = cirq.LineQubit.range(3)
+    templates = [
+        [cirq.Moment(cirq.measure(q0, key="a")), cirq.Moment(cirq.measure(q0, q1, key="b"))],
+        [cirq.Moment(cirq.H(q0)), cirq.Moment(cirq.measure(q0, key="a")), cirq.Moment(cirq.measure(q0, key="a"))],
+        [cirq.Moment(cirq.X(q1)), cirq.Moment(cirq.measure(q1, key="a"), cirq.measure(q0, key="b")), cirq.Moment(cirq.measure(q0, q1, q2, key="c"))],
+        [cirq.Moment(cirq.H(q0), cirq.X(q2)), cirq.Moment(cirq.CNOT(q0, q1)), cirq.Moment(cirq.measure(q0, q1, key="a")), cirq.Moment(cirq.measure(q2, key="b"))],
+        [cirq.Moment(cirq.measure(q0, key="a")), cirq.Moment(cirq.X(q1)), cirq.Moment(cirq.measure(q0, q1, key="b"))],
+    ]
+    run_models = [("X after every moment", cirq.ConstantQubitNoiseModel(cirq.X)), ("bit flip 0.25", cirq.ConstantQubitNoiseModel(cirq.bit_flip(0.25))),
+                  ("X before every moment", cirq.ConstantQubitNoiseModel(cirq.X, prepend=True))]
+    for tmpl in templates:
+        c = cirq.Circuit(tmpl)
+        for mname, nm in run_models:
+            noisy = c.with_noise(nm)
+            for sname, mk in (("Simulator", lambda r, m: cirq.Simulator(noise=m, seed=r)), ("DensityMatrixSimulator", lambda r, m: cirq.DensityMatrixSimulator(noise=m, seed=r))):
+                cases += 1
+                try:
+                    got, want = {}, {}
+                    for p_, rec in enumerate_branches(lambda r: _canon_records(mk(r, nm).run(c, repetitions=1)), max_branches=2048):
+                        got[rec] = got.get(rec, 0.0) + p_
+                    for p_, rec in enumerate_branches(lambda r: _canon_records(mk(r, None).run(noisy, repetitions=1)), max_branches=2048):
+                        want[rec] = want.get(rec, 0.0) + p_
+                except RuntimeError:
+                    continue
+                if set(got) != set(want) or any(abs(got[k] - want[k]) > 1e-6 for k in got):
+                    fails.append(dict(args=dict(circuit=repr(c), noise_model=mname, simulator=sname), failed="run-with-noise-differs",
+                                      clause=f"{sname}(noise=m).run(c) gives records {sorted(got.items())[:3]}, {sname}().run(c.with_noise(m)) gives {sorted(want.items())[:3]}"))
     return dict(function="cirq-core/cirq/sim/simulator_base.py:SimulatorBase._core_iterator + devices/noise_model.py", case="noise-models",
                 bound=f"{n} seeded circuits on 3 qubits with mid-circuit measurements (the simulator splits there) x 6 noise models (constant, prepend, channel-like, insertion, thermal)",
                 cases=cases, distinct=len(distinct), failures=len(fails), exhaustive=False, _fails=_uniq(fails))
